@@ -45,6 +45,7 @@ impl<'t, F: Kind + BooleanFunction> Session<'t, F> {
     /// `tag` becomes part of the signature of every finding in this history
     pub fn new_tagged(out: &'t mut TraceOut, cap: usize, cache: usize, threads: u32, tag: &str) -> Self {
         out.begin_history();
+        crate::kinds::reset_ids();
         let mref = F::new_manager(cap, cache, threads);
         let mut ev = json!({"ev":"reset","kind":F::KIND,"cap":cap,"cache":cache,"thr":threads,
             "backend": if cfg!(feature="ptr") {"ptr"} else {"idx"}});
